@@ -85,7 +85,7 @@ func (s *shpModel) problem(rule, format string, a ...interface{}) {
 func newShpModel(c *Ctx, p *pkgT) *shpModel {
 	s := &shpModel{c: c, p: p, m: newClipModel(c), files: map[string]*shpFile{}, problems: map[string][]string{}}
 	s.it = s.m.it
-	s.it.maxDepth = 14
+	s.it.maxDepth = 48
 	if dep := c.P.Dep(goshpPath); dep != nil {
 		s.shp = dep.Types
 	}
